@@ -148,6 +148,8 @@ def main():
                 txt = txt.replace(old, new)
             open(LEXER, "w", encoding="latin-1").write(txt)
             cc = sh(["gcc", "-fsyntax-only", "-I" + SCRATCH + "/libscpi/inc", "-I" + SCRATCH + "/libscpi/src", LEXER])
+            # the table sections too (check.py of the previous experiment regenerated them from the previous edit)
+            sh([sys.executable, os.path.join(VERIF, "translate", "extract.py"), "A"], env=env)
             tr = sh([sys.executable, os.path.join(VERIF, "translate", "c2lean_lexer.py")], env=env)
             try:
                 failed = json.loads(tr.stdout.strip().splitlines()[-1])["failed"]
